@@ -439,6 +439,10 @@ class LDMService:
         """
         with self._lock:
             self.data_consumer_its_aid.discard(its_aid)
+            subscriptions = self.subscriptions.copy()
+        for subscription in subscriptions:
+            if subscription.subscription_request.application_id == its_aid:
+                self.remove_subscription(subscription)
 
     def delete_subscription(self, subscription_id: int) -> bool:
         """
